@@ -233,6 +233,7 @@ static void run_case(const Geom &g, const Opt &o, bool emit, int big_threshold) 
 }
 
 // ---------------------------------------------------------------------------------------------- modes
+static bool g_expdims = false;
 static int run_random(uint64_t seed, long n, bool nodedup, bool intnormals, bool bigmode) {
   vrt::Rng r(seed);
   GenParams gp;
@@ -251,6 +252,9 @@ static int run_random(uint64_t seed, long n, bool nodedup, bool intnormals, bool
     if (g.pc->num_points() == 0) { for (auto &q : o.qbits) q = 0; if (!mesh) o.method = 0; }
     if (!mesh && o.method == 1) {   // kd-tree wants integer or quantised attributes: make that likely
       for (int a = 0; a < g.pc->num_attributes(); ++a) if (g.pc->attribute(a)->data_type() == DT_FLOAT32 && o.qbits[a] == 0) o.qbits[a] = r.range(2, 16);
+    }
+    if (g_expdims && o.expert) {   // explicit quantisation that names fewer dimensions than the attribute has (determinism campaign only)
+      for (int a = 0; a < g.pc->num_attributes(); ++a) if (g.pc->attribute(a)->data_type() == DT_FLOAT32 && g.pc->attribute(a)->num_components() >= 2 && r.coin()) { o.explicit_att = a; o.explicit_dims = r.range(1, g.pc->attribute(a)->num_components() - 1); break; }
     }
     if (getenv("VERIF_ONLY_CASE") && atoll(getenv("VERIF_ONLY_CASE")) != n_cases + 1) { ++n_cases; continue; }
     if (getenv("VERIF_SPLIT")) o.split = atoi(getenv("VERIF_SPLIT"));
@@ -381,7 +385,7 @@ static int run_sizes(uint64_t seed) {
 
 int main(int argc, char **argv) {
   bool nodedup = false, intnormals = false, big = false;
-  for (int i = 1; i < argc; ++i) { if (!strcmp(argv[i], "nodedup")) nodedup = true; if (!strcmp(argv[i], "intnormals")) intnormals = true; if (!strcmp(argv[i], "big")) big = true; }
+  for (int i = 1; i < argc; ++i) { if (!strcmp(argv[i], "nodedup")) nodedup = true; if (!strcmp(argv[i], "intnormals")) intnormals = true; if (!strcmp(argv[i], "big")) big = true; if (!strcmp(argv[i], "expdims")) g_expdims = true; }
   if (argc >= 4 && !strcmp(argv[1], "random")) return run_random(strtoull(argv[2], 0, 10), atol(argv[3]), nodedup, intnormals, big);
   if (argc >= 4 && !strcmp(argv[1], "fans")) return run_fans(strtoull(argv[2], 0, 10), atol(argv[3]));
   if (argc >= 3 && !strcmp(argv[1], "sizes")) return run_sizes(strtoull(argv[2], 0, 10));
